@@ -22,6 +22,7 @@ package plugin
 //@ func EncodeRecipient(name, data) (s)
 //@   ensures#valid s != "" ==> validname(name)                                                             [C09 C17]
 //@   call bech32.Encode#1 requires same(arg1, data)                                                        [C09 C17]
+//@   call bech32.Encode#1 requires len(arg0) == len(name) + 4 && hasprefix(arg0, "age1") && (forall j in 0..len(name) :: at(arg0, 4 + j) == lowerc(at(name, j)))   [C09 C17]
 //@   modifies nothing
 
 //@ func ParseIdentity(s) (name, data, err)
@@ -125,8 +126,8 @@ package plugin
 //@   call writeStanza#1 requires id(arg0) == id(conn) && arg1 == (r.identity ? "add-identity" : "add-recipient") && len(arg2) == 1 && arg2[0] == r.encoding   [C16]
 //@   call writeStanza#2 requires id(arg0) == id(conn) && hasprefix(arg1, "grease-") && len(arg2) == 0                              [C16]
 //@   call writeStanzaWithBody#1 requires id(arg0) == id(conn) && arg1 == "wrap-file-key" && same(arg2, fileKey)                     [C16]
-//@   call writeStanza#3 requires id(arg0) == id(conn) && arg1 == "extension-labels" && len(arg2) == 0                              [C16]
-//@   call writeStanza#4 requires id(arg0) == id(conn) && arg1 == "done" && len(arg2) == 0                                          [C16]
+//@   call writeStanza#3 requires id(arg0) == id(conn) && arg1 == "extension-labels" && len(arg2) == 0                              [C11 C16]
+//@   call writeStanza#4 requires id(arg0) == id(conn) && arg1 == "done" && len(arg2) == 0                                          [C11 C16]
 //@   call writeStanza#5 requires id(arg0) == id(conn) && arg1 == "ok" && len(arg2) == 0 && s.Type == "recipient-stanza" && rsvalid(s)   [C16]
 //@   call writeStanza#6 requires id(arg0) == id(conn) && arg1 == "ok" && len(arg2) == 0 && s.Type == "labels" && same(labels, s.Args)    [C11 C16]
 //@   call writeStanza#7 requires id(arg0) == id(conn) && arg1 == "ok" && len(arg2) == 0 && s.Type == "error"                       [C16]
@@ -138,12 +139,12 @@ package plugin
 //@   loop 1 invariant#labelsonce (isnil(labels) ==> calls("writeStanza", 6) == old(calls("writeStanza", 6))) && (!isnil(labels) ==> calls("writeStanza", 6) == old(calls("writeStanza", 6)) + 1)   [C11 C16]
 //@   loop 1 invariant#noerrack calls("writeStanza", 7) == old(calls("writeStanza", 7))                                            [C11 C16]
 //@   loop 1 invariant#answered calls("readStanza", 1) - old(calls("readStanza", 1)) == (calls("writeStanza", 5) - old(calls("writeStanza", 5))) + (calls("writeStanza", 6) - old(calls("writeStanza", 6))) + (calls("writeStanza", 8) - old(calls("writeStanza", 8))) + ($handled - old($handled))   [C16]
-//@   loop 1 invariant#phase1 calls("writeStanza", 1) == old(calls("writeStanza", 1)) + 1 && calls("writeStanza", 2) == old(calls("writeStanza", 2)) + 1 && calls("writeStanzaWithBody", 1) == old(calls("writeStanzaWithBody", 1)) + 1 && calls("writeStanza", 3) == old(calls("writeStanza", 3)) + 1 && calls("writeStanza", 4) == old(calls("writeStanza", 4)) + 1   [C16]
+//@   loop 1 invariant#phase1 calls("writeStanza", 1) == old(calls("writeStanza", 1)) + 1 && calls("writeStanza", 2) == old(calls("writeStanza", 2)) + 1 && calls("writeStanzaWithBody", 1) == old(calls("writeStanzaWithBody", 1)) + 1 && calls("writeStanza", 3) == old(calls("writeStanza", 3)) + 1 && calls("writeStanza", 4) == old(calls("writeStanza", 4)) + 1   [C11 C16]
 //@   loop 1 decreases len(sr.r.$rem)
 //@   ensures#readerr lasterr("readStanza", 1) != nil ==> err != nil                                                              [C13 C16 C11]
 //@   ensures#done err == nil ==> lasterr("readStanza", 1) == nil                                                                  [C16 C11]
 //@   ensures#nonempty err == nil ==> len(stanzas) > 0 && len(stanzas) == calls("writeStanza", 5) - old(calls("writeStanza", 5))    [C01 C11 C16]
-//@   ensures#phase1 err == nil ==> calls("writeStanza", 1) == old(calls("writeStanza", 1)) + 1 && calls("writeStanza", 2) == old(calls("writeStanza", 2)) + 1 && calls("writeStanzaWithBody", 1) == old(calls("writeStanzaWithBody", 1)) + 1 && calls("writeStanza", 3) == old(calls("writeStanza", 3)) + 1 && calls("writeStanza", 4) == old(calls("writeStanza", 4)) + 1   [C16]
+//@   ensures#phase1 err == nil ==> calls("writeStanza", 1) == old(calls("writeStanza", 1)) + 1 && calls("writeStanza", 2) == old(calls("writeStanza", 2)) + 1 && calls("writeStanzaWithBody", 1) == old(calls("writeStanzaWithBody", 1)) + 1 && calls("writeStanza", 3) == old(calls("writeStanza", 3)) + 1 && calls("writeStanza", 4) == old(calls("writeStanza", 4)) + 1   [C11 C16]
 //@   ensures#labelsonce err == nil ==> calls("writeStanza", 6) <= old(calls("writeStanza", 6)) + 1                                 [C11 C16]
 //@   ensures#noerrack err == nil ==> calls("writeStanza", 7) == old(calls("writeStanza", 7))                                       [C11 C16]
 //@   ensures#nil err != nil ==> stanzas == nil && labels == nil                                                                   [C11 C14 C16]
